@@ -447,6 +447,11 @@ func (c *FCGIClient) Request(p map[string]string, req io.Reader) (resp *http.Res
 		if err != nil {
 			return
 		}
+		if resp.StatusCode < 100 || resp.StatusCode > 999 {
+			// not a status the response writer accepts (it panics)
+			err = errors.New("fcgi: malformed Status header: " + strconv.Quote(resp.Header.Get("Status")))
+			return
+		}
 		if len(statusParts) > 1 {
 			resp.Status = statusParts[1]
 		}
